@@ -1,4 +1,5 @@
 \* C19 emission (thorough tier): every terminal behaviour for <= 4 versions, printed as CASE lines
+\* (the harness sets FlavourPhase from the seed: one flavour set per input, rotating over the inputs)
 SPECIFICATION Spec
 CONSTANTS
   MaxN = 3
